@@ -12,6 +12,13 @@ to the step in which it really executes.  Namespaces are identified by object id
 where the container / receiver is a chain `name(.attr)*` resolved against the live frame without running any code.
 A location is kept only if some thread writes it and another thread touches it, so a private dict (fresh identity per
 evaluation) or an object owned by one thread's Environment produces no event at all.
+
+Process-wide interpreter state behind accessor functions (sys.set/getrecursionlimit, sys.set/getswitchinterval,
+decimal.setcontext/getcontext/localcontext, locale.setlocale) is a pseudo location `interpreter::<name>` of the one
+namespace oracle.INTERPRETER: loading the accessor (LOAD_ATTR on the resolved module, or a global bound to the very
+function) is the W / R event (the call follows on the same line).  The interpreter's own, implicit reads of the recursion
+limit (on every call) are not byte-code; they are represented by one synthetic R per stretch between two explicit
+accesses of a thread, placed at that stretch's deepest stack point - where the limit binds.
 """
 import builtins
 import collections
@@ -29,6 +36,21 @@ ATTR_OPS = {"STORE_ATTR": "W", "DELETE_ATTR": "W", "LOAD_ATTR": "R"}
 SUBSCR_OPS = {"STORE_SUBSCR": "W", "DELETE_SUBSCR": "W", "BINARY_SUBSCR": "R"}
 SIMPLE = {"LOAD_FAST", "LOAD_FAST_CHECK", "LOAD_DEREF", "LOAD_GLOBAL", "LOAD_NAME", "LOAD_CONST"}
 _tables = {}
+_accessors = {}
+
+
+def accessors():
+    """accessor function object -> [(kind, pseudo location name)]"""
+    if not _accessors:
+        import decimal
+        import locale
+        _accessors.update({
+            sys.setrecursionlimit: [("W", "recursionlimit")], sys.getrecursionlimit: [("R", "recursionlimit")],
+            sys.setswitchinterval: [("W", "switchinterval")], sys.getswitchinterval: [("R", "switchinterval")],
+            decimal.setcontext: [("W", "decimalcontext")], decimal.getcontext: [("R", "decimalcontext")],
+            decimal.localcontext: [("R", "decimalcontext"), ("W", "decimalcontext")],
+            locale.setlocale: [("R", "locale"), ("W", "locale")]})
+    return _accessors
 
 
 def table(code):
@@ -75,6 +97,7 @@ class Extractor:
     def __init__(self, keep):
         self.steps, self.cur, self.occ, self.hist = [], None, {}, []
         self.stats = collections.Counter()
+        self.last = (None, 0)
         self.keep = keep                       # strong references: identities stay unique across the solo runs
         self.funcs = set()
 
@@ -83,7 +106,12 @@ class Extractor:
         key = oracle.gate_key(code, lineno)
         n = self.occ.get(key, 0)
         self.occ[key] = n + 1
-        self.cur = {"key": key, "occ": n, "acc": []}
+        if frame is not self.last[0]:          # stack depth, all frames (traced or not), recomputed on frame changes only
+            d, f = 0, frame
+            while f is not None:
+                d, f = d + 1, f.f_back
+            self.last = (frame, d)
+        self.cur = {"key": key, "occ": n, "acc": [], "depth": self.last[1]}
         self.steps.append(self.cur)
         self.stats["lines"] += 1
 
@@ -128,12 +156,16 @@ class Extractor:
             g = frame.f_globals
             if GLOBAL_OPS[op] == "W" or name in g or name not in vars(builtins):
                 self.emit(frame, GLOBAL_OPS[op], g, name)
+            if GLOBAL_OPS[op] == "R":
+                self.accessor(frame, g.get(name, MISSING))
         elif op in NAME_OPS:
             loc, g = frame.f_locals, frame.f_globals
             if NAME_OPS[op] == "W" or name in loc:
                 self.emit(frame, NAME_OPS[op], loc, name)
             elif name in g or name not in vars(builtins):
                 self.emit(frame, "R", g, name)
+            if NAME_OPS[op] == "R":
+                self.accessor(frame, loc[name] if name in loc else g.get(name, MISSING))
         elif op in ATTR_OPS:
             obj = self.chain(frame, ins, k - 1, h, 1) if k else MISSING
             if obj is MISSING:
@@ -142,10 +174,11 @@ class Extractor:
             if ATTR_OPS[op] == "W":
                 space = obj.__dict__ if isinstance(obj, types.ModuleType) else obj
             else:
-                space = static_attr(obj, name)[0]
+                space, value = static_attr(obj, name)
                 if space is None:
                     self.stats["hooked-attr-read"] += 1
                     return
+                self.accessor(frame, value)
             self.emit(frame, ATTR_OPS[op], space, name)
         elif op in SUBSCR_OPS:
             if k < 2 or ins[k - 1].opname not in SIMPLE:
@@ -157,6 +190,14 @@ class Extractor:
                 self.emit(frame, SUBSCR_OPS[op], cont, key if isinstance(key, str) else repr(key))
             elif cont is MISSING or (isinstance(cont, dict) and key is MISSING):
                 self.stats["unresolved-subscript"] += 1
+
+    def accessor(self, frame, value):
+        try:
+            hits = accessors().get(value, ())
+        except TypeError:                      # unhashable value
+            return
+        for kind, name in hits:
+            self.emit(frame, kind, oracle.INTERPRETER, name)
 
     def emit(self, frame, kind, space, name):
         if self.cur is None:
@@ -181,8 +222,32 @@ def trace(fn, keep):
     return r, ex
 
 
+def implicit_limit_reads(per):
+    """If any workload touches the recursion limit explicitly, give every thread one synthetic read of it per stretch
+    between its explicit accesses (and before the first / after the last), in the stretch's deepest step."""
+    loc = (id(oracle.INTERPRETER), "recursionlimit")
+    explicit = lambda s: any((a["ns"], a["name"]) == loc for a in s["acc"])
+    if not any(explicit(s) for steps in per for s in steps):
+        return 0
+    n = 0
+    for steps in per:
+        best = None
+        for s in steps + [None]:
+            if s is None or explicit(s):
+                if best is not None:
+                    f, q, line, _ = best["key"]
+                    best["acc"].insert(0, {"kind": "R", "ns": loc[0], "name": loc[1], "site": "<interpreter stack check>:recursionlimit",
+                                           "at": f"{f}:{q}:{str(line)[:40]} (deepest point of the stretch, depth {best['depth']})"})
+                    n += 1
+                best = None
+            elif best is None or s["depth"] > best["depth"]:
+                best = s
+    return n
+
+
 def labels(state):
     out = {ns: lab for ns, (lab, _, _) in state.spaces.items()}
+    out[id(oracle.INTERPRETER)] = "interpreter"
     for name, m in list(sys.modules.items()):
         if m is not None and hasattr(m, "__dict__"):
             out.setdefault(id(m.__dict__), name)
@@ -194,21 +259,26 @@ def scenario(runner, programs, bindings, evals=1, warm=False):
     {"t", "k", "gate": {t, file, func, line, nth, occ}, "acc": [{kind, loc, site, at}]}, relevant accesses only."""
     state = oracle.initial_state(runner, warm)
     errors, keep, per, stats, funcs = [], [], [], collections.Counter(), set()
-    plain = oracle.solo(runner, programs, bindings, evals, state)
-    for t, (src, b) in enumerate(zip(programs, bindings)):
-        state.restore()
-        r, ex = trace(oracle.workload(runner, src, b, evals), keep)
-        if r != plain[t]:
-            errors.append(f"thread {t}: outcome under tracing {r} differs from the untraced solo outcome {plain[t]}")
-        written = {(a["ns"], a["name"]) for s in ex.steps for a in s["acc"] if a["kind"] == "W"}
-        for ns, lab, name, how in state.diff():
-            if (ns, name) not in written and not (how == "mutated" and any(w[0] == id(state.spaces[ns][1].get(name)) for w in written)):
-                errors.append(f"thread {t}: {lab}.{name} was {how} by the workload but no write event was extracted "
-                              f"(extraction incomplete for this tree)")
-        per.append(ex.steps)
-        stats.update(ex.stats)
-        funcs |= ex.funcs
+    try:
+        plain = oracle.solo(runner, programs, bindings, evals, state)
+        for t, (src, b) in enumerate(zip(programs, bindings)):
+            state.restore()
+            r, ex = trace(oracle.workload(runner, src, b, evals), keep)
+            if r != plain[t]:
+                errors.append(f"thread {t}: outcome under tracing {r} differs from the untraced solo outcome {plain[t]}")
+            written = {(a["ns"], a["name"]) for s in ex.steps for a in s["acc"] if a["kind"] == "W"}
+            for ns, lab, name, how in state.diff():
+                if (ns, name) not in written and not (how == "mutated" and any(w[0] == id(state.spaces[ns][1].get(name)) for w in written)):
+                    errors.append(f"thread {t}: {lab}.{name} was {how} by the workload but no write event was extracted "
+                                  f"(extraction incomplete for this tree)")
+            per.append(ex.steps)
+            stats.update(ex.stats)
+            funcs |= ex.funcs
+    except BaseException:
+        state.close()
+        raise
     state.restore()
+    stats["implicit-limit-reads"] = implicit_limit_reads(per)
     writers, users = collections.defaultdict(set), collections.defaultdict(set)
     for t, steps in enumerate(per):
         for s in steps:
